@@ -856,11 +856,13 @@ impl<F: Fam> Ctx<F> {
     fn set_algebra_inner(&mut self) -> Result<(), Fail> {
         let ma: BTreeSet<u32> = self.sets[0].model.keys().copied().collect();
         let mb: BTreeSet<u32> = self.sets[1].model.keys().copied().collect();
-        for order in 0..2 {
-            let (x, y, mx, my) = if order == 0 {
-                (&self.sets[0].set, &self.sets[1].set, &ma, &mb)
-            } else {
-                (&self.sets[1].set, &self.sets[0].set, &mb, &ma)
+        // both orders of the two sets, and each set against itself (equal operands)
+        for order in 0..4 {
+            let (x, y, mx, my) = match order {
+                0 => (&self.sets[0].set, &self.sets[1].set, &ma, &mb),
+                1 => (&self.sets[1].set, &self.sets[0].set, &mb, &ma),
+                2 => (&self.sets[0].set, &self.sets[0].set, &ma, &ma),
+                _ => (&self.sets[1].set, &self.sets[1].set, &mb, &mb),
             };
             let check = |name: &str, got: Vec<u32>, want: Vec<u32>| -> Option<String> {
                 let mut g = got.clone();
